@@ -155,8 +155,20 @@ func (w *sworld) evalPN(pc *search.PermanodeConstraint, b blob.Ref) bool {
 	}
 	if pc.Attr != "" {
 		vals := w.values(b, pc.Attr, pc.At)
-		if pc.NumValue != nil && !intMatches(pc.NumValue, int64(len(w.valuesList(b, pc.Attr, pc.At)))) {
-			return false
+		if pc.NumValue != nil {
+			// The docs do not say whether a value that was added twice counts twice.  perkeep's two
+			// implementations differ: the corpus counts the value list, the corpus-less path
+			// (Describe) the distinct values.  Each is accepted in its own mode (DESIGN 10.4).
+			n := len(w.valuesList(b, pc.Attr, pc.At))
+			if w.distinctCount {
+				if n != len(vals) {
+					w.features["numValue-list-vs-set-differs(classic)"]++
+				}
+				n = len(vals)
+			}
+			if !intMatches(pc.NumValue, int64(n)) {
+				return false
+			}
 		}
 		if hasValueConstraint(pc) {
 			n := 0
